@@ -132,6 +132,18 @@ static vector<Scene> scenes4() {
         if (!ok) continue; s.edges = {{0, 1, -1, 0}, {2, 3, -1, 0}}; out.push_back(s); }
     return out;
 }
+// 4 nodes: the edge 0-1 bent tightly round a corner of node 2 (as in scenes3(true)), node 3 on any other free cell that the path
+// does not touch.  Used with simultaneous drags of nodes 2 and 3: the bend can straighten and be removed while node 3 runs into
+// the merged segment and pushes it back onto node 2 within the same solve loop.
+static vector<Scene> scenes4bent() {
+    double g[4] = {0, 20, 40, 60}; vector<Scene> out;
+    for (auto &s3 : scenes3(true)) for (int d = 0; d < 16; d++) {
+        XY q{g[d % 4], g[d / 4]}; bool ok = true; for (auto &p : s3.pos) if (p == q) ok = false; if (!ok) continue;
+        XY c = corner(s3.pos[2], s3.edges[0].viaCorner);
+        if (segHitsRect(s3.pos[0][0], s3.pos[0][1], c[0], c[1], q[0], q[1], HW, 0) || segHitsRect(c[0], c[1], s3.pos[1][0], s3.pos[1][1], q[0], q[1], HW, 0)) continue;
+        Scene s = s3; s.pos.push_back(q); out.push_back(s); }
+    return out;
+}
 static vector<Scene> scenes4abut(int W, int H) {
     double sp = 2 * HW; vector<Scene> out; int C = W * H;
     for (int a = 0; a < C; a++) for (int b = a + 1; b < C; b++) for (int c = 0; c < C; c++) for (int d = c + 1; d < C; d++) { if (a == c || a == d || b == c || b == d) continue;
@@ -163,6 +175,7 @@ int main(int argc, char **argv) {
     explore("3 nodes, edge bent round node 2", scenes3(true), 2, {0, 20, 40, 60});
     explore("4 nodes, two straight edges", scenes4(), T ? 2 : 1, {0, 20, 40});
     explore_pairs("4 abutting nodes (spacing = node size) on 4x3 cells, one edge", scenes4abut(4, 3), {0, 10, 20, 30});
+    explore_pairs("4 nodes on a 4x4 grid, edge bent round node 2, node 3 free", scenes4bent(), {-20, 0, 20, 40, 60, 80});
     explore("4 abutting nodes on 3x3 cells, one edge", scenes4abut(3, 3), 1, {0, 10, 20});
     if (T) { explore_pairs("4 abutting nodes on 4x4 cells, one edge", scenes4abut(4, 4), {0, 10, 20, 30}); explore("4 abutting nodes on 3x3 cells, one edge", scenes4abut(3, 3), 2, {0, 10, 20});
              explore("3 nodes, straight edge", scenes3(false), 3, {0, 20, 40, 60}); explore("3 nodes, edge bent round node 2", scenes3(true), 3, {0, 20, 40, 60}); }
